@@ -408,7 +408,7 @@ class State:
             self.dead = True
             return False
         # keep the un-simplified term: z3's simplifier expands seq.nth into solver-specific symbols
-        self.pc.append(term if _has_seq_nth(term) else t)
+        self.pc.append(term)
         return True
 
     def entails(self, cond):
